@@ -16,7 +16,7 @@ use shared::triple::Triple;
 pub const DEF: PropDef = PropDef {
     id: "C17",
     level: "exploration",
-    rule: "cases = (request text, database state, entry point): request texts are the C16 seed corpus (SELECT forms, the six update forms incl. the C03 extension symbols, legacy INSERT/DELETE aliases, rejected requests, RULE/REGISTER/RETRIEVE/ML.PREDICT extension requests) plus C17's own seeds (two single-line requests longer than 200 columns with multi-byte literals spread through them; an update behind REGISTER / RETRIEVE / ML.PREDICT / a MODEL + NEURAL RELATION declaration; a SELECT over a declared, untrained neural relation; CRLF- and tab-separated requests), every single mutation of every seed (delete / insert / substitute 14 special characters incl. multi-byte / truncate, at every offset) and every token string of <=2 (thorough <=3) tokens over the 34-token alphabet. Family ws_mutation: insertion and substitution, at every offset of every fourth seed and of every C17 seed, of six characters the C16 alphabet lacks (tab, CR, CRLF, combining acute, zero-width space, a double-width CJK character); family tokens_ws: token strings of <=2 tokens containing one of them, spaced and glued. States: empty, default-graph only, named graphs + an empty named graph, quoted triples (quick: each mutation against one of two states, alternating; thorough: all four). Entry points: execute_sparql_query, the HTTP query endpoint (SparqlDatabase::handle_http_request with a well-formed POST application/sparql-query, a form-encoded query= body, and - for seeds, tokens and every eighth mutation - GET /sparql?query= and a form body that writes spaces as '+'), execute_sparql_update, SparqlDatabase::execute_update, SparqlDatabase::handle_update and (SELECT texts only) the legacy execute_query_rayon_parallel2_volcano. Family http_form_raw: form bodies whose query= value carries a raw invalid-UTF-8 escape (%E9), a dangling '%', '%zz', '%00' or '+' at the start, middle or end of every seed; the text that reaches the engine is computed by an independent decoder. Family neural_train: one complete neural-relation program (MODEL + NEURAL RELATION + TRAIN NEURAL RELATION + SELECT over the neural predicate) per state, as one request text through every route. Family history2: every ordered pair of 12 requests (prefix-declaring / prefix-using SELECT and updates, a failed update, a rule, a neural declaration, garbage) where the first goes through execute_sparql_query, execute_update or the legacy adapter and the second is judged. Oracle: no entry point panics; execute_sparql_query and the HTTP query endpoint leave quads + catalog identical for every text, return Err / 'Query Failed' for every text the parser classifies as an Update and for every text it classifies as malformed; a text the parser classifies as SELECT leaves the dataset unchanged through every entry point and is refused by the update entry points; an update entry point that returns Err / 'Update Failed' leaves the dataset unchanged and returns Err for every malformed text. Non-trivial = texts accepted by the request parser; distinct by (text, state).",
+    rule: "cases = (request text, database state, entry point): request texts are the C16 seed corpus (SELECT forms, the six update forms incl. the C03 extension symbols, legacy INSERT/DELETE aliases, rejected requests, RULE/REGISTER/RETRIEVE/ML.PREDICT extension requests) plus C17's own seeds (two single-line requests longer than 200 columns with multi-byte literals spread through them; an update behind REGISTER / RETRIEVE / ML.PREDICT / a MODEL + NEURAL RELATION declaration; a SELECT over a declared, untrained neural relation; CRLF- and tab-separated requests), every single mutation of every seed (delete / insert / substitute 14 special characters incl. multi-byte / truncate, at every offset; quick: C17's own long seeds get every third of these, rotating with the offset) and every token string of <=2 (thorough <=3) tokens over the 34-token alphabet. Family ws_mutation: insertion and substitution, at every offset of every fourth seed and of every C17 seed, of six characters the C16 alphabet lacks (tab, CR, CRLF, combining acute, zero-width space, a double-width CJK character); family tokens_ws: token strings of <=2 tokens containing one of them, spaced and glued. States: empty, default-graph only, named graphs + an empty named graph, quoted triples (quick: each mutation against one of two states, alternating; thorough: all four). Entry points: execute_sparql_query, the HTTP query endpoint (SparqlDatabase::handle_http_request with a well-formed POST application/sparql-query, a form-encoded query= body, and - for seeds, tokens and every eighth mutation - GET /sparql?query= and a form body that writes spaces as '+'), execute_sparql_update, SparqlDatabase::execute_update, SparqlDatabase::handle_update and (SELECT texts only) the legacy execute_query_rayon_parallel2_volcano. Family http_form_raw: form bodies whose query= value carries a raw invalid-UTF-8 escape (%E9), a dangling '%', '%zz', '%00' or '+' at the start, middle or end of every seed; the text that reaches the engine is computed by an independent decoder. Family neural_train: one complete neural-relation program (MODEL + NEURAL RELATION + TRAIN NEURAL RELATION + SELECT over the neural predicate) per state, as one request text through every route. Family history2: every ordered pair of 12 requests (prefix-declaring / prefix-using SELECT and updates, a failed update, a rule, a neural declaration, garbage) where the first goes through execute_sparql_query, execute_update or the legacy adapter and the second is judged. Oracle: no entry point panics; execute_sparql_query and the HTTP query endpoint leave quads + catalog identical for every text, return Err / 'Query Failed' for every text the parser classifies as an Update and for every text it classifies as malformed; a text the parser classifies as SELECT leaves the dataset unchanged through every entry point and is refused by the update entry points; an update entry point that returns Err / 'Update Failed' leaves the dataset unchanged and returns Err for every malformed text. Non-trivial = texts accepted by the request parser; distinct by (text, state).",
     assumptions: &[
         "classification of a text as SELECT / Update / malformed is taken from kolibrie::parser::parse_combined_query (whose totality and faithfulness are C16's subject); for the POST application/sparql-query route the classified text is the part of the body before the first blank line (CRLF CRLF), which is what that route hands to the engine",
         "each case runs on a fresh database; crash isolation by worker subprocess (a worker killed by a signal is a violation)",
@@ -320,7 +320,14 @@ fn record(out: &mut ShardOut, ctx: &Ctx, family: &str, text: &str, state_idx: us
     let fails = check_case(text, state_idx, kind, wide);
     out.outcomes.insert(crate::infra::hash64(&(format!("{:?}", kind), fails.len())));
     for (symptom, detail, entry) in fails {
-        let tags = vec![format!("entry={}", entry), format!("kind={:?}", kind), format!("multibyte={}", !text.is_ascii()), format!("family={}", family)];
+        let mut tags = vec![format!("entry={}", entry), format!("kind={:?}", kind), format!("multibyte={}", !text.is_ascii()), format!("family={}", family)];
+        // structural facts about the request itself
+        if text.contains("TRAIN NEURAL RELATION") {
+            tags.push("request_has_train_neural_relation".into());
+        }
+        if text.contains("NEURAL RELATION") {
+            tags.push("request_declares_neural_relation".into());
+        }
         out.fail(json!({"family": family, "text": text, "state": state_idx, "wide": wide}), symptom, detail, tags);
     }
 }
@@ -576,6 +583,11 @@ fn run(ctx: &Ctx) -> ShardOut {
             ws_mutations(seed, &mut |m| batch.push((true, m)));
         }
         for (mi, (ws, m)) in batch.into_iter().enumerate() {
+            // quick: C17's own (long) seeds get every third mutation, rotating with the offset so
+            // that every kind of mutation still meets every third offset
+            if !ctx.thorough() && si >= n_c16 && (mi / 30 + mi) % 3 != 0 {
+                continue;
+            }
             for (k, &st) in mut_states.iter().enumerate() {
                 idx += 1;
                 // quick: EVERY mutation meets exactly one of the two states (alternating by the
